@@ -23,6 +23,7 @@ PRELUDE = r'''
 #include <cstdio>
 #include <cstring>
 #include <sstream>
+#include <algorithm>
 extern std::vector<std::string> LOG;
 static long nchecks = 0, nbad = 0;
 static std::string show(long long v) { return "i" + std::to_string(v); }
@@ -214,6 +215,15 @@ def main():
                             unmapped.append(f['scoped_name'])
                             continue
                         x = fld[0]
+                        if x['kind'] == 'iarr':
+                            # an array member: the setter copies the argument into the member and leaves the argument alone
+                            if f['flags'] & fl['Function.F_setter']:
+                                tests.append('{ %s A(7); %s B(7); int src[3] = {50, -60, 70}; %s(&A, src); std::copy(src, src + 3, B.%s); '
+                                             'check("%s", "array setter %s", show(A.%s[0]) + show(A.%s[1]) + show(A.%s[2]), show(B.%s[0]) + show(B.%s[1]) + show(B.%s[2]), "", "", '
+                                             'show(src[0]) + show(src[1]) + show(src[2]), std::string("i50i-60i70")); }'
+                                             % (cls, cls, w['name'], x['name'], w['name'], x['name'], x['name'], x['name'], x['name'], x['name'], x['name'], x['name']))
+                                ncalls += 1
+                            continue
                         vals = W.SCALAR[x['kind']][2] if x['kind'] in W.SCALAR else W.STRINGS
                         for j, v in enumerate(vals[:3]):
                             if f['flags'] & fl['Function.F_getter']:
